@@ -135,7 +135,8 @@ META = {
                 'every collective)',
         'probes': ['rank_with_0_samples', 'rank_with_1_sample', 'tied_weights',
                    'zero_weights', 'fewer_than_2_processed',
-                   'second_solution_same_objects', 'accumulator_history',
+                   'second_solution_same_objects',
+                   'second_fit_same_optimizer', 'accumulator_history',
                    'pooled_result_asked_again', 'tied_derived_values',
                    'condensate_profiles'],
         'real': ['Optimizer.generate_profiles / sample_parameters / '
@@ -369,6 +370,7 @@ META = {
                    'written_after_later_evaluations',
                    'another_file_loaded_first',
                    'loaded_with_replacements_first',
+                   'damaged_model_file_refused',
                    'lightcurve_result_stored'],
         'real': ['HDF5Output / HDF5OutputGroup', 'Output.store_dictionary, '
                  'recursively_save_dict_contents_to_output, store_thing',
@@ -415,7 +417,8 @@ META = {
                    'parts_on_sub_grid', 'source_added_after_build',
                    'interpolation_mode_changed_under_model',
                    'correlated_k_mode',
-                   'collision_pairs_changed_after_build'],
+                   'collision_pairs_changed_after_build',
+                   'model_used_after_fault_in_integral'],
         'real': ['TransmissionModel (both path methods), SimpleForwardModel '
                  'model/model_contrib/model_full_contrib/build',
                  'AbsorptionContribution, CIAContribution, RayleighContribution, '
